@@ -62,6 +62,10 @@ TEXT = {
          "no default key contains the magic separator (generated DEFAULTS tree); notations/validation/independence/reset by the style oracle on every family",
          "flat model of MagicProperties (validators and nested property objects not modelled)",
          "Lean 4 theorems by induction over the family list + decide over the generated DEFAULTS tree + leaf x source x notation oracle"),
+ "C18": ("proof (partial): at tree level copy() writes nothing to the original forest, the copy is parentless and its children are the clones in order; label iteration keeps the digit width; "
+         "equality, same field, heap disjointness and mutate-and-diff by the interpreter-level copy oracle for every class and collection trees",
+         "CPython heap (deepcopy, class-level mutables, numpy views) is outside the list model",
+         "Lean 4 theorems on a tree-level copy model + reachable-graph / np.shares_memory / mutate-and-diff oracle"),
 }
 props = [json.loads(l) for l in open("properties.jsonl")]
 checks = []
